@@ -63,7 +63,21 @@ def run(ctx):
                         and ("/" + mname) not in [o[0] for o in pkg.content_types["overrides"]]:
                     pkg.content_types["defaults"].append((ext, "image/x-" + ext.lower()))
                     declared.add(ext)
-            if pkg.media and rng.random() < 0.5:
+            if i < 3:
+                # dedicated documents: several pictures, byte-identical and of one declared type (i = 0, 1), or of odd subtypes (i = 2)
+                from mammoth.docx.xmlparser import element as X
+                g2 = gen_xml.XGen(rng, notes=False, comments=False, textboxes=False, anomalies=0.0, deleted=False, linked_rate=0.0, fields=False)
+                pkg = g2.package(1)
+                for _ in range(3):
+                    pkg.body.append(X("w:p", {}, [X("w:r", {}, [g2.drawing()])]))
+                pkg.body = prune(pkg.body)
+                pkg.linked.clear()
+                for mname in sorted(pkg.media):
+                    pkg.content_types["overrides"] = [o for o in pkg.content_types["overrides"] if o[0] != "/" + mname] + \
+                        [("/" + mname, "image/png" if i < 2 else rng.choice(["image/svg+xml", "image/x-emf"]))]
+                    if i < 2:
+                        pkg.media[mname] = b"same bytes in every picture"
+            elif pkg.media and rng.random() < 0.5:
                 # content types whose subtype is not a plain word: the file is named with the subtype as it is
                 for mname in sorted(pkg.media):
                     if ("/" + mname) not in [o[0] for o in pkg.content_types["overrides"]] and rng.random() < 0.6:
@@ -85,6 +99,8 @@ def run(ctx):
             with open(path, "wb") as f:
                 f.write(data)
             mode = rng.choice(["path", "stdout", "output_dir"])
+            if i < 3:
+                mode = "output_dir"          # the image-file clauses are exercised in every run (see the dedicated documents above)
             fmt = rng.choice(["absent", "html", "markdown"])
             sm = rng.choice(STYLE_MAPS)
             args = [common.PY, "-m", "mammoth.cli", path]
